@@ -65,6 +65,8 @@ def coq_case_defs(cases, obss, prefix="c"):
         em = Emit(case)
         out.append("Definition %s%d_h : list hstep :=\n  %s." % (prefix, i, em.history()))
         out.append("Definition %s%d_got : list (string * list string * list string) :=\n %s." % (prefix, i, coq_got(reduce_obs(obs))))
+        out.append("Definition %s%d_core : bool := match first_bad_exact (core_history %s %s %s%d_h %s) %s%d_got with None => true | Some _ => false end." % (
+            prefix, i, cpath(case["cache"]), coq_str(case["name"]), prefix, i, world0(case), prefix, i))
         out.append("Definition %s%d_spec : bool := match first_bad (ref_history %s %s %s%d_h %s) %s%d_got with None => true | Some _ => false end." % (
             prefix, i, cpath(case["cache"]), coq_str(case["name"]), prefix, i, world0(case), prefix, i))
         out.append("Definition %s%d_want : list (list string) :=\n %s." % (prefix, i, coq_obs(obs)))
@@ -95,10 +97,11 @@ def run_shard(args):
     txt = COQ_HEADER + coq_case_defs(cases, obss) + "\n"
     txt += common.marker("res") + "Eval vm_compute in failing [%s].\n" % "; ".join("c%d_chk" % i for i in range(len(cases)))
     txt += common.marker("spec") + "Eval vm_compute in failing [%s].\n" % "; ".join("c%d_spec" % i for i in range(len(cases)))
+    txt += common.marker("core") + "Eval vm_compute in failing [%s].\n" % "; ".join("c%d_core" % i for i in range(len(cases)))
     rc, out = common.coq_eval(workdir, "shard%d" % idx, txt, timeout=1200)
     if rc != 0:
-        return idx, None, None, out[-3000:]
-    return idx, common.parse_nat_list(out, "res"), common.parse_nat_list(out, "spec"), None
+        return idx, None, None, None, out[-3000:]
+    return idx, common.parse_nat_list(out, "res"), common.parse_nat_list(out, "spec"), common.parse_nat_list(out, "core"), None
 
 
 def compare(cases, workdir, parallel=8):
@@ -114,9 +117,10 @@ def compare(cases, workdir, parallel=8):
         shards.append((k // SHARD, cases[k:k + SHARD], obss[k:k + SHARD], workdir))
     dis = []
     specbad = []
+    corebad = []
     err = None
     with ThreadPoolExecutor(max_workers=parallel) as ex:
-        for idx, bad, sbad, e in ex.map(run_shard, shards):
+        for idx, bad, sbad, cbad, e in ex.map(run_shard, shards):
             if e is not None:
                 err = e
                 continue
@@ -124,6 +128,11 @@ def compare(cases, workdir, parallel=8):
                 dis.append(idx * SHARD + b)
             for b in sbad or []:
                 specbad.append(idx * SHARD + b)
+            for b in cbad or []:
+                corebad.append(idx * SHARD + b)
+    compare.corebad_raw = corebad
+    from .gen import cache_only_dirs as _cod
+    compare.corebad = [i for i in corebad if not cases[i].get("faults") and not _cod(cases[i])]
     from .gen import cache_only_dirs
     compare.specbad = [i for i in specbad if not cache_only_dirs(cases[i])]
     compare.spec_skipped = sum(1 for c in cases if cache_only_dirs(c))
@@ -150,6 +159,22 @@ def spec_req(case, workdir, tag="spec"):
             'Definition show_req (r : step_req) := join nl ([sq_result r] ++ sq_log r ++ ["--tree"] ++ match sq_tree r with Some t => t | None => ["<unconstrained>"] end).\n'
             'Eval vm_compute in join (nl ++ "@@STEP" ++ nl) (map show_req (ref_history %s %s h init_world)).\n'
             % (cpath(case["cache"]), coq_str(case["name"])))
+    rc, out = common.coq_eval(workdir, tag, txt, timeout=600)
+    m = re.search(r'=\s*"(.*)"\s*:\s*string', out, re.S)
+    if rc != 0 or not m:
+        return None, out[-2000:]
+    body = m.group(1).replace('""', '"')
+    return [st.split("\n") for st in body.split("\n@@STEP\n")], None
+
+
+def core_req(case, workdir, tag="corereq"):
+    """What the Core model does at each step (for reports)."""
+    em = Emit(case)
+    txt = COQ_HEADER + "Definition h : list hstep :=\n  %s.\n" % em.history()
+    txt += ('Definition nl := String (Ascii.ascii_of_nat 10) "".\n'
+            'Definition show_req (r : step_req) := join nl ([sq_result r] ++ sq_log r ++ ["--tree"] ++ match sq_tree r with Some t => t | None => ["<unconstrained>"] end).\n'
+            'Eval vm_compute in join (nl ++ "@@STEP" ++ nl) (map show_req (core_history %s %s h %s)).\n'
+            % (cpath(case["cache"]), coq_str(case["name"]), world0(case)))
     rc, out = common.coq_eval(workdir, tag, txt, timeout=600)
     m = re.search(r'=\s*"(.*)"\s*:\s*string', out, re.S)
     if rc != 0 or not m:
